@@ -164,3 +164,44 @@ write("C19", c19runs,
        "lines that start with a recognised keyword but emit nothing may still count (the statement allows it)",
        "field alphabets and stubs as for C06 / C11"],
       ["fields longer than the stated maxima"], site_prefix="c19.")
+
+# ---- C09
+write("C09", [run("reuse", TRK, "VerifC09Reuse", {"params": {"K": 7}, "sym_map_order": True, "max_steps": 20000000}, {"params": {"K": 9}, "sym_map_order": True, "max_steps": 50000000},
+                  reach=["c09.second-login", "c09.second-generation-emitted"],
+                  bounds="two sessions opened by the same (symbolic) PID, three records each (LOGIN, one event, CRED_DISP) in order, each login line at any position, stray late records of the ended session; K operations; map iteration order is a decision")],
+      ["the second sshd process (its LOGIN record and its login line) only appears after the first session has ended, as in the property's quantifier",
+       "stubs: zap, uuid, time.Now"],
+      ["more than two generations of one PID; more than one record between LOGIN and CRED_DISP"], site_prefix="c09.")
+
+
+# ---- C16 (correlator API level)
+write("C16", [run("history-with-cleanup", TRK, "VerifTrackerHistory", {"params": {"K": 4, "S": 2, "L": 2, "CLEANUP": 1}, "max_steps": 20000000},
+                  {"params": {"K": 5, "S": 2, "L": 2, "CLEANUP": 1}, "max_steps": 50000000},
+                  reach=["c16.session-discarded", "c16.login-discarded", "c16.correlated-despite-cleanup", "trk.history-end"],
+                  bounds="K operations incl. both cleanup calls with symbolic cut-offs (0..1000 s) placed anywhere; login times symbolic; a session's age is bracketed by two symbolic clock readings")],
+      ["equality of age and cut-off is left open, as in the statement (paths where the cut-off falls inside a session's clock bracket are not asserted)",
+       "the wiring in Auditd.Read (a one-minute ticker calling both cleanups with now-1min) is read from the source but not executed: it sits behind the real parser/reassembler, which the engine does not run",
+       "stubs: zap, uuid, time.Now (symbolic non-decreasing clock)"],
+      ["real-time runs of the audit processor (the 'thorough, about three minutes' part of the quantifier)", "the ticker wiring in Auditd.Read"], site_prefix="c16.")
+
+# ---- C13
+AL = M + "/ingesters/auditlog"
+SL = M + "/ingesters/syslog"
+AUD = M + "/processors/auditd"
+c13 = []
+for st, nm in ((0, "pipe-waiting-for-writer"), (1, "pipe-idle"), (2, "pipe-between-records")):
+    c13.append(run(nm, NP, "VerifC13NamedPipe", {"params": {"STATE": st}, "preempt": 2}, {"params": {"STATE": st}}, reach=["c13.pipe.returned"],
+                   bounds="named-pipe ingester cancelled while " + nm.replace("-", " ")))
+for c in (0, 1, 2):
+    c13.append(run("auditlog-full-buffer-cap%d" % c, AL, "VerifC13AuditLogBackPressure", {"params": {"CAP": c}}, None, reach=["c13.auditlog.blocked", "c13.auditlog.returned"],
+                   bounds="audit ingester blocked handing a record to a full channel of capacity %d whose consumer has stopped" % c))
+c13.append(run("auditlog-through-pipe", AL, "VerifC13AuditLogIngest", {"params": {"CAP": 1}, "preempt": 2}, {"params": {"CAP": 2}}, reach=["c13.auditlog.ingest-returned"],
+               bounds="audit ingester reading its FIFO with the downstream channel full"))
+c13.append(run("syslog-hand-off", SL, "VerifC13SyslogHandOff", {"params": {}, "preempt": 2}, {"params": {}}, reach=["c13.syslog.blocked", "c13.syslog.returned"],
+               bounds="sshd pipe ingester blocked handing a login to a correlator that never receives"))
+c13.append(run("auditd-idle", AUD, "VerifC13AuditdIdle", {"params": {}, "preempt": 1}, {"params": {}, "preempt": 3}, reach=["c13.auditd.idle", "c13.auditd.returned"],
+               bounds="audit processor idle in its select, both inputs silent"))
+write("C13", c13, ["cancellation is injected once every goroutine of the worker is blocked (the property quantifies over blocking states)",
+                   "'returns within a bounded time' is decided as: in every schedule the worker's call returns (no goroutine is left blocked forever on the path to its return)",
+                   "FIFO model as in C12 (Close wakes a blocked Read); go-libaudit's reassembler runs from its real source; stubs: zap, time.NewTicker (environment ticks), sync"],
+      ["the numeric time bound", "cancellation in the middle of delivering a record (not a blocking state)"], site_prefix="c13.")
